@@ -12,16 +12,16 @@ import (
 )
 
 type CtxOp struct {
-	Fn      *ssa.Function
-	Go      *ssa.Go
-	Closure *ssa.Function
-	Chan    *ssa.MakeChan // result channel
-	ChanVar ssa.Value     // the Alloc holding the channel, if spilled
-	Select  *ssa.Select
-	DoneIdx int // select state receiving from ctx.Done()
-	ResIdx  int // select state receiving from the result channel
-	IOCall  ssa.CallInstruction // the blocking I/O call inside the closure
-	IODir   string              // "read" or "write"
+	Fn       *ssa.Function
+	Go       *ssa.Go
+	Closure  *ssa.Function
+	Chan     *ssa.MakeChan // result channel
+	ChanVar  ssa.Value     // the Alloc holding the channel, if spilled
+	Select   *ssa.Select
+	DoneIdx  int                 // select state receiving from ctx.Done()
+	ResIdx   int                 // select state receiving from the result channel
+	IOCall   ssa.CallInstruction // the blocking I/O call inside the closure
+	IODir    string              // "read" or "write"
 	Problems []string
 }
 
